@@ -398,6 +398,12 @@ func (f *FaceModule) update(interest *spec.Interest, pitToken []byte, inFace uin
 		areParamsValid = false
 	}
 
+	if params.Mtu != nil && *params.Mtu < defn.MinMTU {
+		// Too small to carry the link protocol header and any payload
+		responseParams["Mtu"] = uint64(*params.Mtu)
+		areParamsValid = false
+	}
+
 	if !areParamsValid {
 		response = makeControlResponse(409, "ControlParameters are incorrect", nil)
 		f.manager.sendResponse(response, interest, pitToken, inFace)
